@@ -150,6 +150,19 @@ reg("C16", "exploration",
     "DESIGN.md section 3, C16")
 
 
+reg("C18", "exploration",
+    "Model-based stateful search: Hypothesis generates histories (3..25 steps quick, ..50 thorough) of configure(**kw), enter "
+    "reconfigure(**kw), exit normally / by exception, request (get, set, walk) and unknown-setting attempts, with kw over "
+    "timeout, retries, credentials (V1 / V2C communities, three SNMPv3 users incl. authPriv) and context, nesting depth <= 4; the "
+    "history is interpreted against a model stack. After every step client.config must equal the model top; for every request, "
+    "EVERY datagram reaching the sender seam (discovery probes included) must carry the timeout / retries in force and its "
+    "independently decoded version, community or user, and context must equal the model top, and the request must succeed; "
+    "unknown settings must raise and change nothing. The whole history shrinks as one value and is the replay file.",
+    "Trusts lib/vber.py for decoding and lib/vagent.py for answering; client.config.* is the documented observable configuration.",
+    "model-based stateful property testing (Hypothesis-generated operation histories against a model stack)",
+    "DESIGN.md section 3, C18")
+
+
 def main():
     present = sorted(os.path.basename(p)[:3].upper()
                      for p in glob.glob(os.path.join(VERIF, "checks", "c[0-9][0-9]_*.py")))
